@@ -277,6 +277,82 @@ fn local_read_contract() {
     }
 }
 
+/// the specialised READLOCALn / MOVEREADLOCALn forms agree with the general ones
+#[kani::proof]
+#[kani::unwind(7)]
+fn local_fast_path_arms_contract() {
+    let (stack, vals) = any_stack();
+    let sp: usize = kani::any();
+    kani::assume(sp <= 1);
+    let n: usize = kani::any();
+    kani::assume(n <= 3);
+    let mv: bool = kani::any();
+    let mut t = thread_with(stack, sp, lambda(0, false, 1), 0);
+    let mut vm = core_on(&mut t, sp, code(1));
+    let ip0 = vm.ip;
+    let r = match (mv, n) {
+        (false, 0) => local_handler0(&mut vm),
+        (false, 1) => local_handler1(&mut vm),
+        (false, 2) => local_handler2(&mut vm),
+        (false, _) => local_handler3(&mut vm),
+        (true, 0) => vm.arm_movereadlocal0(),
+        (true, 1) => vm.arm_movereadlocal1(),
+        (true, 2) => vm.arm_movereadlocal2(),
+        (true, _) => vm.arm_movereadlocal3(),
+    };
+    assert!(r.is_ok());
+    assert!(vm.ip == ip0 + 1 && vm.sp == sp);
+    drop(vm);
+    assert!(t.stack.len() == L + 1);
+    assert!(int_at(&t.stack, L) == Some(vals[sp + n]), "the specialised form reads another local than the general one");
+    let mut i = 0;
+    while i < L {
+        if mv && i == sp + n {
+            assert!(matches!(t.stack[i], SteelVal::Void), "the moved-from slot must not keep a second reference");
+        } else {
+            assert!(int_at(&t.stack, i) == Some(vals[i]));
+        }
+        i += 1;
+    }
+}
+
+#[kani::proof]
+#[kani::unwind(7)]
+fn constant_arms_contract() {
+    let (stack, vals) = any_stack();
+    let mut t = thread_with(stack, 0, lambda(0, false, 1), 0);
+    let mut vm = core_on(&mut t, 0, code(1));
+    let ip0 = vm.ip;
+    let k: u8 = kani::any();
+    kani::assume(k < 6);
+    let r = match k {
+        0 => vm.arm_true(),
+        1 => vm.arm_false(),
+        2 => vm.arm_loadint0(),
+        3 => vm.arm_loadint1(),
+        4 => vm.arm_loadint2(),
+        _ => vm.arm_void(),
+    };
+    assert!(r.is_ok() && vm.ip == ip0 + 1);
+    drop(vm);
+    assert!(t.stack.len() == L + 1);
+    let ok = match (k, &t.stack[L]) {
+        (0, SteelVal::BoolV(true)) => true,
+        (1, SteelVal::BoolV(false)) => true,
+        (2, SteelVal::IntV(0)) => true,
+        (3, SteelVal::IntV(1)) => true,
+        (4, SteelVal::IntV(2)) => true,
+        (5, SteelVal::Void) => true,
+        _ => false,
+    };
+    assert!(ok, "a constant instruction pushes another value");
+    let mut i = 0;
+    while i < L {
+        assert!(int_at(&t.stack, i) == Some(vals[i]));
+        i += 1;
+    }
+}
+
 #[kani::proof]
 #[kani::unwind(7)]
 fn local_move_contract() {
@@ -394,6 +470,46 @@ fn subimmediate_arm_contract() {
             assert!(t.stack.len() == 2);
         }
     }
+}
+
+// ------------------------------------------------------------------ C10/C01: (<= local k) fast paths
+#[kani::proof]
+#[kani::unwind(4)]
+fn lteimmediate_arms_contract() {
+    let l: isize = kani::any();
+    let k: u32 = kani::any();
+    let target: u32 = kani::any();
+    kani::assume(k < (1 << 24) && target < (1 << 24));
+    let number: bool = kani::any();
+    let fused: bool = kani::any();
+    let local = if number { SteelVal::IntV(l) } else { SteelVal::BoolV(true) };
+    let mut t = thread_with(vec![SteelVal::Void, local], 1, lambda(0, false, 1), 0);
+    let cur = RootedInstructions::leak(vec![
+        DenseInstruction::new(if fused { OpCode::LTEIMMEDIATEIF } else { OpCode::LTEIMMEDIATE }, u24::from_u32(0)),
+        DenseInstruction::new(OpCode::PASS, u24::from_u32(k)),
+        DenseInstruction::new(OpCode::IF, u24::from_u32(target)),
+        DenseInstruction::new(OpCode::POPPURE, u24::from_u32(0)),
+    ]);
+    let mut vm = core_on(&mut t, 1, cur);
+    vm.ip = 0;
+    let r = if fused { vm.arm_lteimmediateif() } else { vm.arm_lteimmediate() };
+    let ip1 = vm.ip;
+    drop(vm);
+    if !number {
+        assert!(matches!(r, Err(e) if e.kind == ErrorKind::TypeMismatch));
+        assert!(t.stack.len() == 2);
+        return;
+    }
+    assert!(r.is_ok());
+    let want = (l as i128) <= (k as i128);
+    if fused {
+        assert!(t.stack.len() == 2, "the fused compare-and-branch must not leave the boolean behind");
+        assert!(ip1 == if want { 3 } else { target as usize }, "the fused compare-and-branch takes the wrong branch");
+    } else {
+        assert!(ip1 == 2 && t.stack.len() == 3);
+        assert!(matches!(&t.stack[2], SteelVal::BoolV(b) if *b == want), "(<= local k) is not l <= k");
+    }
+    assert!(matches!(&t.stack[1], SteelVal::IntV(v) if *v == l) && matches!(&t.stack[0], SteelVal::Void));
 }
 
 // ------------------------------------------------------------------ the TCOJMP arm of the interpreter loop
